@@ -254,6 +254,9 @@ def process (content : Bytes) (o : Oracle) (banned : List Kind) : Except PErr Bu
     | .ok expanded =>
       let d := Src.ofArray content.toArray
       let (bf, _) := decoForest d done expanded 0
+      match Build.checkRules bf [] with
+      | .error e => .error (buildErrAt done expanded e)
+      | .ok _ =>
       match Build.compile banned bf with
       | .error e => .error (buildErrAt done expanded e)
       | .ok c => .ok c
@@ -447,11 +450,15 @@ def processFS (fs : PFS) (o : Nat → Oracle) (banned : List Kind) : Except FErr
       .error ⟨idFile n loc, .paste e⟩
     | .ok expanded =>
       let (bf, _) := decoForestF fs st.done expanded 0
-      match Build.compile banned bf with
-      | .error e =>
+      let located (e : Build.BErr) : FErr :=
         match buildErrAt st.done expanded e with
-        | .build e' i be => .error ⟨idFile n i, .build e' i be⟩
-        | x => .error ⟨0, x⟩
+        | .build e' i be => ⟨idFile n i, .build e' i be⟩
+        | x => ⟨0, x⟩
+      match Build.checkRules bf [] with
+      | .error e => .error (located e)
+      | .ok _ =>
+      match Build.compile banned bf with
+      | .error e => .error (located e)
       | .ok c => .ok c
 
 end JSight.Project
